@@ -59,6 +59,8 @@ func c06(w *core.World, r *core.Report) {
 	ruleHolderLookupFailureSurfaces(w, r)
 	r.Rule("R02.5", "the position offered to the source is the greatest stored offset: a record chosen by modification time re-requests bytes that were already applied (shared with C02)", 1)
 	ruleNewestCheckpoint(w, r)
+	r.Rule("R06.15", "an optional capability that is asserted on an interface-typed field (the output's DropStartPoint in syncMeta) is not hidden by a wrapper stored in the field: every concrete type that can be stored there implements the asserted interface or holds nothing that does", 1)
+	ruleOptionalCapabilityVisible(w, r)
 }
 
 func rulePsyncWire(w *core.World, r *core.Report) {
